@@ -1,9 +1,9 @@
 """Code -> model constants (DESIGN.md 2.2): dumped from /repo's working tree on every run."""
 import json
 
-def dump_specs(ctx, ids=None):
+def dump_specs(ctx, ids=None, extra=None):
     """Writes specs.json (read by spec/Parrots.tla) into the scratch dir; returns the dict."""
-    evs = ctx.drv("dumpspecs", {"ids": ids or []})
+    evs = ctx.drv("dumpspecs", {"ids": ids or [], "extra": extra or []})
     d = {"specs": evs[0]["specs"], "shuffling": evs[0]["shuffling"]}
     ctx.write_json("specs.json", d)
     return d
